@@ -60,7 +60,7 @@ func h3IgnorableType(r *u.Rng) uint64 {
 
 func h3Sched(r *u.Rng, n int) []int {
 	var s []int
-	switch r.Intn(5) {
+	switch r.Intn(6) {
 	case 0: // full reads
 	case 1: // byte by byte
 		for i := 0; i < n; i++ {
@@ -69,6 +69,10 @@ func h3Sched(r *u.Rng, n int) []int {
 	case 2:
 		for i := 0; i < n; i++ {
 			s = append(s, r.Range(1, 3))
+		}
+	case 3: // halves
+		for i := 0; i < n && i < 64; i++ {
+			s = append(s, max(1, n/2))
 		}
 	default:
 		k := r.Range(1, 40)
@@ -229,11 +233,51 @@ func h3GenSettings(r *u.Rng) (frame []byte, e h3exp) {
 	return
 }
 
+// h3FrameTable: fixed cases (independent of the seed) for the skipping of frames that are not
+// processed: every kind of ignorable type x payload lengths around the varint and buffer
+// boundaries x read schedules that make the payload straddle Reads (one byte, two bytes, half of
+// the payload, everything at once).  After the skipped frame a DATA frame must be found.
+type h3tabCase struct {
+	data  []byte
+	sched []int
+	fw    bool
+	name  string
+}
+
+func h3FrameTable() []h3tabCase {
+	var out []h3tabCase
+	for ti, t := range []uint64{0x3, 0x5, 0xd, 0x21, 0x1f*1000 + 0x21, 0x40} {
+		for _, l := range []int{0, 1, 2, 5, 63, 64, 65, 200} {
+			hdr := quicvarint.Append(quicvarint.Append(nil, t), uint64(l))
+			data := append([]byte{}, hdr...)
+			for k := 0; k < l; k++ {
+				data = append(data, byte(k*37+ti)) // looks like frame headers when the parser is out of step
+			}
+			data = append(data, 0x00, 0x03, 0xaa, 0xbb, 0xcc)
+			hdrReads := make([]int, len(hdr))
+			for k := range hdrReads {
+				hdrReads[k] = 9
+			}
+			ones := make([]int, len(data))
+			twos := make([]int, len(data))
+			for k := range ones {
+				ones[k], twos[k] = 1, 2
+			}
+			for si, sc := range [][]int{ones, twos, append(append([]int{}, hdrReads...), max(1, l/2)), nil} {
+				out = append(out, h3tabCase{data: data, sched: sc, fw: (si+l)%2 == 0,
+					name: fmt.Sprintf("skip type %#x len %d sched-kind %d", t, l, si)})
+			}
+		}
+	}
+	return out
+}
+
 func runH3Frames(w *bufio.Writer, seed uint64, n int, _ []string) {
 	r0 := u.NewRng(seed)
 	dist := map[string]int{}
 	samples := 0
-	for i := 0; i < n; i++ {
+	table := h3FrameTable()
+	for i := 0; i < n+len(table); i++ {
 		r := r0.Fork()
 		var data []byte
 		var exp []h3exp
@@ -358,6 +402,12 @@ func runH3Frames(w *bufio.Writer, seed uint64, n int, _ []string) {
 		}
 		sched := h3Sched(r, len(data))
 		fw := r.Bool()
+		if i < len(table) { // fixed case: <ignorable frame> <DATA, 3 bytes> EOF
+			tc := table[i]
+			data, sched, fw, fc, fa, known = tc.data, tc.sched, tc.fw, 1, 0, true
+			exp = []h3exp{{kind: 0, length: 3}, {kind: -1, errCls: http3.VerifH3SErrEOF}}
+			dist["table-skip"]++
+		}
 		if fc == 2 && fw {
 			// a stream error delivered together with the last bytes makes the byte reader drop them
 			known = false
